@@ -3,7 +3,7 @@
    Model: model/Merkle.v (mt_leaf fixed: fixed = true is the current tree, after repair b29c426 of
    `first_leaf_index + index`; fixed = false the originally pinned tree).  Specification: spec/MerkleSpec.v. *)
 From Coq Require Import ZArith Bool List.
-From TF Require Import Merkle MerkleSpec MerkleProofs.
+From TF Require Import Merkle MerkleSpec MerkleGen MerkleProofs.
 Import ListNotations.
 Open Scope Z_scope.
 
@@ -36,6 +36,25 @@ Theorem C04_sound : forall (D : Type) (H : D -> D -> D) (Deqb : D -> D -> bool) 
 Proof. exact sound_lemma. Qed.
 Print Assumptions C04_sound.
 
+Example C04_sound_hyp :
+  let p := MkProof 3 [(0, Atom 0); (2, Atom 2)] [Atom 3; Atom 1; Node (Node (Atom 4) (Atom 5)) (Node (Atom 6) (Atom 7))] in
+  0 <= ip_height p <= 31 /\ zlen wit_leafs = 2 ^ ip_height p /\ wf_proof term p /\ is_trivial term p = false /\
+  ip_verify term Node term_eqb Release p (znth term Dflt (spec_tree term Node Dflt wit_leafs) 1) = Ok true /\
+  (forall i d, In (i, d) (ip_leafs p) -> i < zlen wit_leafs /\ d = znth term Dflt wit_leafs i).
+Proof.
+  cbv zeta. cbn [ip_height ip_leafs]. split; [split; discriminate|]. split; [reflexivity|].
+  split; [split; [discriminate|intros i [<-|[<-|[]]]; discriminate]|]. split; [reflexivity|].
+  split; [vm_compute; reflexivity|].
+  intros i d [E|[E|[]]]; inversion E; subst; split; reflexivity.
+Qed.
+
+(* a wrong claim against the same root is rejected (and, by C04_sound, could only be accepted with a collision) *)
+Example C04_sound_rejects_wrong_leaf :
+  ip_verify term Node term_eqb Release
+    (MkProof 3 [(0, Atom 0); (2, Atom 99)] [Atom 3; Atom 1; Node (Node (Atom 4) (Atom 5)) (Node (Atom 6) (Atom 7))])
+    (znth term Dflt wit_tree 1) = Ok false.
+Proof. vm_compute. reflexivity. Qed.
+
 (* ---- total: verify returns a verdict, into_authentication_paths a list or an error; never a panic, never out of
    fuel; arbitrary usize height / indices / lengths; both build modes *)
 Theorem C04_total : forall (D : Type) (H : D -> D -> D) (Deqb : D -> D -> bool) (dflt : D),
@@ -46,6 +65,13 @@ Theorem C04_total : forall (D : Type) (H : D -> D -> D) (Deqb : D -> D -> bool) 
    ip_into_authentication_paths D H Deqb m p = Err).
 Proof. exact total_lemma. Qed.
 Print Assumptions C04_total.
+
+Example C04_total_extremes :
+  ip_verify term Node term_eqb Checked (MkProof (2 ^ 64 - 1) [(2 ^ 64 - 1, Atom 0)] [Atom 1]) Dflt = Ok false /\
+  ip_verify term Node term_eqb Release (MkProof 31 [(2 ^ 31 - 1, Atom 0); (2 ^ 63, Atom 0)] []) Dflt = Ok false /\
+  ip_into_authentication_paths term Node term_eqb Checked (MkProof 32 [] []) = Err /\
+  ip_verify term Node term_eqb Checked (MkProof (2 ^ 63) [] []) Dflt = Ok true.
+Proof. repeat split; vm_compute; reflexivity. Qed.
 
 (* ---- paths_spec: path expansion succeeds exactly on structurally valid proofs and yields, per claimed leaf in
    the given order, the sibling digests of the partial tree from the leaf level upwards *)
@@ -118,3 +144,10 @@ Print Assumptions C04_accessors_mode_dependent_v0.
 Theorem C04_model_variant : CUR_LEAF_FIXED = true.
 Proof. exact (eq_refl true). Qed.
 Print Assumptions C04_model_variant.
+
+(* the model variant / constants used above are the ones the translator reads from the current source
+   (coq/gen/MerkleGen.v, regenerated on every run): a source change to `leaf`, the `while` guard, the default
+   cutoff or the height limit makes this fail to compile *)
+Theorem C04_model_matches_source : CUR_LEAF_FIXED = GEN_LEAF_CHECKED_ADD /\ MAX_TREE_HEIGHT = GEN_MAX_TREE_HEIGHT /\ GEN_ROOT_INDEX = 1.
+Proof. exact (conj (proj1 model_matches_source) (conj (proj1 (proj2 (proj2 model_matches_source))) (proj1 (proj2 (proj2 (proj2 model_matches_source)))))). Qed.
+Print Assumptions C04_model_matches_source.
